@@ -1023,12 +1023,17 @@ func (p *c12Prop) Gen(r *Rng, tier string, n int) []string {
 	}
 	close(jobs)
 	wg.Wait()
-	return append(out, lines...)
+	out = append(out, lines...)
+	// READ COMMITTED emulation (harness/ip*.go): all statement boundaries of append victims x rivals
+	return append(out, ipGen(r.Fork(), "C12", 8+n/40)...)
 }
 
 func (p *c12Prop) Run(in string, scratch string) Result {
 	if v, ok := c12Cache.Load(in); ok {
 		return v.(Result)
+	}
+	if strings.HasPrefix(in, "IP ") {
+		return ipRunProp(in, scratch, "C12")
 	}
 	stack := "fs"
 	if crc32.ChecksumIEEE([]byte(in))%3 == 0 {
